@@ -243,6 +243,13 @@ def apply_edit(ds: xr.Dataset, built: G.Built, state: dict, e: dict) -> xr.Datas
         out = ds.copy()
         out[e['name']] = xr.Variable(dims, data, attrs=dict(e.get('attrs', {'units': 'kg'})))
         return out
+    if op == 'fortran_layout':
+        out = ds.copy(deep=True)
+        for n in e.get('names', []):
+            if n in out.variables and out.variables[n].ndim >= 2:
+                v = out.variables[n]
+                v.values = np.asfortranarray(np.array(v.values))
+        return out
     if op == 'prepend_var':
         # a data variable on a new dimension, placed FIRST in the dataset (as `time` is in most files)
         new = xr.Variable([e['dim']], np.arange(e['n'], dtype='f8') + e.get('base', 0), attrs=dict(e.get('attrs', {'units': '1'})))
